@@ -85,6 +85,7 @@ pub struct RStats {
     pub executions: u64,
     pub points: u64,
     pub capped: u64,
+    pub incomplete: u64,
     pub epilogue_hits: u64,
     pub epilogue_misses: u64,
     pub outcomes: BTreeSet<String>,
@@ -166,6 +167,7 @@ pub fn check_program(p: &RaceProg, bound: usize, max_execs: usize, st: &mut RSta
         |res, te, choices| {
             if res.outcome != Outcome::Completed {
                 // deadlocks are C08's verdict; an unfinished execution proves nothing here
+                st.incomplete += 1;
                 return true;
             }
             let qv = &vs[p.search.0 % vs.len()];
